@@ -247,6 +247,15 @@ func c49Check(tb ev.TB, rec *ev.Rec, c *c49Case, e2e *c49Rig) {
 			rec.Excluded("cond-open")
 			return
 		}
+		for _, h := range m.Hosts {
+			for i := 0; i < len(h); i++ {
+				if h[i] <= 0x20 || h[i] >= 0x7f {
+					// HOST_SET_FROM_PATH_PREFIX on a segment that is no host name (space, non-ASCII)
+					rec.Excluded("host-from-path-not-a-hostname")
+					return
+				}
+			}
+		}
 		var msg *ref.Message
 		if e2e != nil {
 			x := e2e.exchange(c)
@@ -798,13 +807,23 @@ func c49GenQuery(rt *rapid.T, want []string) string {
 	return strings.Join(parts, "&")
 }
 
-func c49GenPath(rt *rapid.T) string {
+// c49EscSegs: segments whose percent-escapes stand for reserved characters, space, '%'
+// and non-ASCII UTF-8 - the escapes a proxy must not decode when it repeats the URL
+// (upper and lower case hex).
+var c49EscSegs = []string{"hello%20world.html", "search%3Fq=1", "h%23frag", "100%25", "%E4%B8%AD%E6%96%87", "a%3fb", "%e4%b8%ad", "x%26y%3Dz", "semi%3Bcolon"}
+
+func c49GenPath(rt *rapid.T, mod string) string {
 	n := rapid.IntRange(0, 4).Draw(rt, "nseg")
 	if n == 0 {
 		return "/"
 	}
 	segs := make([]string, n)
 	for i := range segs {
+		// (in rewrite cases not as first segment: HOST_SET_FROM_PATH_PREFIX would make it a host name)
+		if (mod != "rewrite" || i > 0) && rapid.IntRange(0, 9).Draw(rt, "escseg") < 3 {
+			segs[i] = rapid.SampledFrom(c49EscSegs).Draw(rt, "eseg")
+			continue
+		}
 		segs[i] = rapid.SampledFrom(c49Segs).Draw(rt, "seg")
 	}
 	p := "/" + strings.Join(segs, "/")
@@ -826,7 +845,7 @@ func c49PathPrefixes(rawPath string) []string {
 		acc += "/" + s
 		out = append(out, acc, acc+"/")
 	}
-	if len(p) > 2 {
+	if len(p) > 2 && p[1] < 0x80 {
 		out = append(out, p[:2])
 	}
 	return out
@@ -929,7 +948,7 @@ func c49GenCase(rt *rapid.T) *c49Case {
 	c := &c49Case{}
 	c.Mod = rapid.SampledFrom([]string{"rewrite", "rewrite", "rewrite", "header", "header", "redirect"}).Draw(rt, "mod")
 	host := rapid.SampledFrom(c49Hosts).Draw(rt, "host")
-	rawPath := c49GenPath(rt)
+	rawPath := c49GenPath(rt, c.Mod)
 	nr := rapid.IntRange(1, 2).Draw(rt, "nrules")
 	// actions first (so that the query can be biased towards the keys they name)
 	var want []string
@@ -1026,6 +1045,7 @@ func c49Sweep(t *testing.T, rec *ev.Rec, rig *c49Rig) {
 		{"URL_PREFIX_ADD", []string{"https://example.org"}}, {"SCHEME_SET", []string{"https"}},
 	} {
 		one("redirect", a, "/redirect?url=https%3A%2F%2Fn.example.org%2Fx%3Fy%3D1&b=2", nil, nil)
+		one("redirect", a, "/docs/hello%20world.html/search%3Fq=1/100%25/%E4%B8%AD?url=https%3A%2F%2Fn.example.org%2F&b=2", nil, nil)
 	}
 }
 
